@@ -403,7 +403,7 @@ def classify(c02_gen, ir, api, classes, tr, sp, fn, a, exp, m1):
             tr.apply(m2, classes, api)
             o2, _ = c02_gen.run_main(m2, fn, a, 4 * sp.fuel, cfg=sp.cfg)
             if isinstance(o2, OkV) and o2.v == exp:
-                return 'rem-floor-fold'
+                return 'folder-rem-arithmetic'     # the difference disappears with an exact truncating '%' fold
         except Exception:   # noqa: BLE001
             pass
     return None
